@@ -117,7 +117,7 @@ class Helper:
                 if isinstance(f, ast.Name) and f.id in ("locals", "vars", "super", "eval", "exec"):
                     return False
         for d in list(fn.args.defaults) + [d for d in fn.args.kw_defaults if d is not None]:
-            if not isinstance(d, ast.Constant):
+            if not isinstance(d, (ast.Constant, ast.List, ast.Dict, ast.Tuple, ast.Name, ast.Attribute)):
                 return False
         return True
 
@@ -193,6 +193,8 @@ def _bind(helper, call, caller, at_stmt):
         if p not in given:
             if p not in helper.defaults:
                 raise Fail("missing arg")
+            if not isinstance(helper.defaults[p], ast.Constant):
+                raise Fail("mutable / computed default would be needed")
             given[p] = helper.defaults[p]
     stored = _stored(helper.body)
     used = _names_used(caller)
@@ -319,7 +321,9 @@ def _expand(stmts, cont, tail, in_loop=False):
         elif isinstance(s, (ast.Try, ast.With)) and _has_return([s]):
             raise Fail("return under try/with")
         out.append(s)
-    if tail and not in_loop and not _ends_in_jump(out):
+    if tail and not in_loop and not _ends_in_jump(stmts):
+        # the helper can fall off its end here: implicit `return None` (judged on the helper's own statements: a return
+        # that expanded to nothing must not be mistaken for falling through)
         out.extend(cont(None, True, stmts[-1] if stmts else None, implicit=True))
     return out
 
@@ -633,12 +637,88 @@ def _try_context(fn, target):
     return path[0] if path else None
 
 
+def _call_before_load(roots, load_ids):
+    """is some (non-pure) call completed before one of the loads is evaluated, in left-to-right evaluation order?"""
+    seq = []
+
+    def post(n):
+        if isinstance(n, (ast.FunctionDef, ast.AsyncFunctionDef, ast.Lambda, ast.ClassDef)):
+            return
+        if isinstance(n, ast.Assign):         # value first, then targets
+            post(n.value)
+            for t in n.targets:
+                post(t)
+            return
+        if isinstance(n, ast.AugAssign):
+            post(n.target)
+            post(n.value)
+            seq.append(n)
+            return
+        for c in ast.iter_child_nodes(n):
+            post(c)
+        seq.append(n)
+    for r in roots:
+        if r is not None:
+            post(r)
+    called = False
+    for n in seq:
+        if isinstance(n, ast.Name) and id(n) in load_ids and called:
+            return True
+        if isinstance(n, ast.Call) and not (isinstance(n.func, ast.Name) and n.func.id in PURE_CALLS | ITER_CALLS):
+            called = True
+        if isinstance(n, (ast.Attribute, ast.Subscript)) and isinstance(n.ctx, (ast.Store, ast.Del)):
+            called = True
+    return False
+
+
+def _may_raise(e):
+    """exception class names evaluating e may raise (set), or None for 'anything'"""
+    out = set()
+    for n in ast.walk(e):
+        if isinstance(n, (ast.Name, ast.Constant, ast.Load, ast.expr_context)):
+            continue
+        if isinstance(n, ast.Attribute):
+            out.add("AttributeError")
+            continue
+        return None
+    return out
+
+
+def _handler_names(h):
+    if h.type is None:
+        return None
+    elts = h.type.elts if isinstance(h.type, ast.Tuple) else [h.type]
+    out = set()
+    for x in elts:
+        if isinstance(x, ast.Name):
+            out.add(x.id)
+        elif isinstance(x, ast.Attribute):
+            out.add(x.attr)
+        else:
+            return None
+    return out
+
+
 def _safe_everywhere(fn, asg, v, e, loads):
     from .cfg import CFG
     base = _try_context(fn, asg)
+    raises = _may_raise(e)
+    tries = {id(t): t for t in ast.walk(fn) if isinstance(t, ast.Try)}
     for ld in loads:
-        if _try_context(fn, ld) != base:
-            return False
+        ctx = _try_context(fn, ld)
+        if ctx != base:
+            # the expression would be evaluated under different handlers: fine only if none of the handlers that differ can
+            # catch what it may raise
+            if raises is None:
+                return False
+            diff = set(base or ()) ^ set(ctx or ())
+            for tid, part in diff:
+                if part != "body":
+                    continue
+                for h in tries[tid].handlers:
+                    names = _handler_names(h)
+                    if names is None or names & (raises | {"Exception", "BaseException"}):
+                        return False
     try:
         g = CFG(fn)
     except Exception:
@@ -677,7 +757,7 @@ def _safe_everywhere(fn, asg, v, e, loads):
         if kills:
             # uses at this very node are evaluated before/with the kill only for plain stores; be conservative
             after = g.reachable([b for b, _ in g.succ.get(i, [])], removed_nodes=[d.id]) if g.succ.get(i) else set()
-            if (use_nodes & after) or (i in use_nodes and any(isinstance(x, ast.Call) for x in g.walk_node(n)) and attrs):
+            if (use_nodes & after) or (i in use_nodes and attrs and _call_before_load(g.node_exprs(n), load_ids)):
                 return False
             continue
         stack.extend(b for b, _ in g.succ.get(i, []))
